@@ -121,7 +121,7 @@ theorem appB_finishTsig (macFn : Tsig → List UInt8 → List UInt8) (ts : Tsig)
     rw [this.2]; exact ⟨this.1, rfl, Or.inl rfl⟩
 
 
-theorem writeAt_append (a : Bytes) (pos : Nat) (d1 d2 : List UInt8) :
+theorem writeAt_append_split (a : Bytes) (pos : Nat) (d1 d2 : List UInt8) :
     writeAt a pos (d1 ++ d2) = writeAt (writeAt a pos d1) (pos + d1.length) d2 := by
   induction d1 generalizing a pos with
   | nil => simp [writeAt]
@@ -181,7 +181,7 @@ theorem finishCounts_bytes (a b c d : Nat) (s sA : State) (h : finishCounts a b 
               have hcomb : writeAt (writeAt (writeAt (writeAt s.octets Gen.QDCOUNT_START (u16be a))
                   Gen.ANCOUNT_START (u16be b)) Gen.NSCOUNT_START (u16be c)) Gen.ARCOUNT_START (u16be d) =
                   writeAt s.octets 4 (u16be a ++ u16be b ++ u16be c ++ u16be d) := by
-                rw [c4, c6, c8, c10, ← writeAt_append, ← writeAt_append, ← writeAt_append]
+                rw [c4, c6, c8, c10, ← writeAt_append_split, ← writeAt_append_split, ← writeAt_append_split]
               simp only [hcomb]
               have hlen : (u16be a ++ u16be b ++ u16be c ++ u16be d).length = 8 := rfl
               have hsz : 12 ≤ s.octets.size := by rw [hl] at b4; exact b4
